@@ -117,6 +117,17 @@ def l21_groups(case):
     return [int(t) for t in lab]
 
 
+def same_partition(a, b):
+    """two labellings induce the same partition of the index set"""
+    if len(a) != len(b):
+        return False
+    m1, m2 = {}, {}
+    for x, y in zip(a, b):
+        if m1.setdefault(x, y) != y or m2.setdefault(y, x) != x:
+            return False
+    return True
+
+
 # ---------------------------------------------------------------------------------------------
 # projections used by the (squared) set distance
 
@@ -356,8 +367,21 @@ def model_eval(model, case, impl=None):
         r = model.call(fam, v=fs2b(stacked(v)), **extra)
         return unstack(b2fs(r["out"])), None
     if fam == "l21":
+        # the MODEL computes the groups from the layout (`axisGroup shape (normAxes nd l2_axis)` / `blockGroup sizes`);
+        # `l21_groups` (numpy) is an independent computation, compared with the model's labelling up to renaming
+        kw = {"twice": bool(cplx)}
+        if case.get("blocks") is not None:
+            kw["blocks"] = [int(np.prod(sh)) for sh in case_shapes(case)]
+        else:
+            kw["shape"] = [int(t) for t in case["shape"]]
+            ax = P.get("axis", 0)
+            if ax is None:
+                kw["axes_none"] = True
+            else:
+                kw["axes"] = [int(ax)] if isinstance(ax, int) else [int(a) for a in ax]
+        r = model.call("l21", v=fs2b(stacked(v)), lam=lam, **kw)
         g = l21_groups(case)
-        r = model.call("l21", v=fs2b(stacked(v)), lam=lam, grp=(g + g) if cplx else g)
+        case["_groups_agree"] = same_partition(list(r["groups"]), (g + g) if cplx else g)
         return unstack(b2fs(r["out"])), None
     if fam == "nonneg":
         return np.asarray(b2fs(model.call("nonneg", v=fs2b(v))["out"])), None
